@@ -355,6 +355,8 @@ _base_check_c09 = check
 def check(ctx):            # noqa: F811  (extends the rules above)
     _base_check_c09(ctx)
     fetching(ctx, ctx.prog)
+    # "value locked in claims and supports is reported apart from spendable funds": the type column every output is stored with
+    R.share(ctx, "C15", {"C15-T5": "C09-D7"})
 
 
 def fetching(ctx, prog):
